@@ -38,6 +38,7 @@ def run(eng, rep) -> None:
     rep.rule("R03.1", "visitor exhaustive; every hook overridden; emitted wrapper names/arities exist in decoders.h; free template names bound")
     rep.rule("R03.2", "constructor parameters, FromJson arguments and Decode's constructor arguments iterate in one order; wire loops are id-sorted")
     rep.rule("R03.3", "enum Encode/Decode/GetSize width = enum.get_packed_size()")
+    rep.rule("R03.11", "synthesised rpc type names (<name>MethodId, <name>Input, <name>Output): definitions and references derive the name identically")
     rep.rule("R03.10", "a generated Encode() starts from an empty buffer, or one pre-sized with no more than the struct's smallest encoding")
     rep.rule("R03.9", "sizes the generator reads from schema nodes are computed from the node's current content (no value cached at construction from a list that other code changes)")
     rep.rule("R03.6", "carrier selection contains no down-rounding of the bit width (floor division without +7 compensation, floor())")
@@ -109,6 +110,7 @@ def run(eng, rep) -> None:
     # free names of fcp.h.j2 at its render sites
     jb = JinjaBinding(eng)
     presize_rule(eng, rep, jb)
+    synth_name_rule(eng, rep, jb)
     sites = [s for s in jb.sites if s.template == "fcp.h.j2"]
     rep.floor("R03.1", "render sites of fcp.h.j2", len(sites), 1)
     tpath = sites[0].path if sites else None
@@ -331,3 +333,86 @@ def presize_rule(eng, rep, jb) -> None:
         for k in sorted(set(MIN_BITS) - decided):
             rep.undecided("R03.10", per_type.file, per_type.qual, "%s: reserve ?" % k, "no branch for this constructor recognised (falls through to a generic size)")
     rep.ok("R03.10", t.relpath, "Encode()", "Buffer construction sites in the struct template", "%d found" % n_sites)
+
+
+# ---------------------------------------------------------------- R03.11: synthesised type names
+def synth_name_rule(eng, rep, jb) -> None:
+    """The rpc layer synthesises types named <schema name> + constant suffix (ServiceMethodId, PayloadInput, ...) and refers to them
+    from Python (EnumType/StructType/Impl.type) and from the templates.  Definition and references must derive the name the same
+    way: `to_pascal_case` is not the identity (it lower-cases everything after a word's first letter and drops underscores), so a
+    definition named `name + S` and a reference to `to_pascal_case(name) + S` differ for LevelControl / temp_req, and the generated
+    headers do not compile."""
+    prog = eng.prog
+    sites = {}  # suffix -> [(transform, where, text, role)]
+    mods = [m for m in prog.modules.values() if m.name.startswith("fcp_cpp")]
+
+    def derivation(f, e, depth=0):
+        """-> (transform, suffix) for  [T(]X[)] + "Suffix" ; follows single-assignment locals"""
+        from ..dataflow import deep_resolve
+        e = deep_resolve(f.node, e)
+        def transform(l):
+            if isinstance(l, ast.Call) and isinstance(l.func, (ast.Name, ast.Attribute)) and len(l.args) == 1 and not l.keywords:
+                return (dotted(l.func) or "?").split(".")[-1]
+            if isinstance(l, ast.Call) and isinstance(l.func, ast.Attribute) and not l.args and isinstance(l.func.value, (ast.Name, ast.Attribute)):
+                return l.func.attr
+            if isinstance(l, (ast.Name, ast.Attribute)):
+                return "plain"
+            return "expr " + norm(l, 30)
+        if isinstance(e, ast.BinOp) and isinstance(e.op, ast.Add) and isinstance(e.right, ast.Constant) and isinstance(e.right.value, str) and re.match(r"^[A-Z]\w*$", e.right.value):
+            return transform(e.left), e.right.value
+        if isinstance(e, ast.JoinedStr) and len(e.values) == 2 and isinstance(e.values[0], ast.FormattedValue) and isinstance(e.values[1], ast.Constant) and re.match(r"^[A-Z]\w*$", str(e.values[1].value)) and e.values[0].format_spec is None:
+            return transform(e.values[0].value), e.values[1].value
+        return None
+
+    ROLE = {"Enum": "definition", "Struct": "definition", "Impl": "definition", "EnumType": "reference", "StructType": "reference"}
+    for m in mods:
+        for f in [x for x in prog.functions.values() if x.module is m]:
+            for n in walk_local(f.node):
+                if not (isinstance(n, ast.Call) and (dotted(n.func) or "").split(".")[-1] in ROLE):
+                    continue
+                cname = (dotted(n.func) or "").split(".")[-1]
+                cands = list(n.args[:1]) + [k.value for k in n.keywords if k.arg in ("name", "type")]
+                for a in cands:
+                    d = derivation(f, a)
+                    if d:
+                        sites.setdefault(d[1], []).append((d[0], "%s::%s" % (f.file, f.qual), norm(n, 60), ROLE[cname]))
+    suffixes = set(sites)
+    seen_t = set()
+    for rs in jb.sites:
+        if rs.path is None or rs.path in seen_t or not rs.path.endswith((".j2",)):
+            continue
+        seen_t.add(rs.path)
+        t = jb.template(rs.path)
+        seq = t.output_sequence(t.ast.body)
+        for i, (kind, v) in enumerate(seq):
+            if kind != "expr" or i + 1 >= len(seq) or seq[i + 1][0] != "data":
+                continue
+            mm = re.match(r"^([A-Z][A-Za-z0-9_]*)", seq[i + 1][1])
+            if not mm or mm.group(1) not in suffixes:
+                continue
+            tr = "plain"
+            e = v
+            if isinstance(e, J.Filter):
+                tr = e.name
+            elif isinstance(e, J.Call) and isinstance(e.node, J.Name):
+                tr = e.node.name
+            sites[mm.group(1)].append((tr, t.relpath, "{{%s}}%s" % (JTemplate.src(v), mm.group(1)), "reference"))
+    n = 0
+    for suf, lst in sorted(sites.items()):
+        if len(lst) < 2:
+            continue
+        n += 1
+        trs = sorted({x[0] for x in lst})
+        desc = "; ".join("%s in %s [%s]" % (x[0], x[1].split("::")[-1], x[3]) for x in lst[:6])
+        if len(trs) == 1:
+            rep.ok("R03.11", lst[0][1].split("::")[0], "-", "<name>%s x%d" % (suf, len(lst)), "every definition and reference derives the name the same way (%s)" % trs[0])
+        else:
+            defs = [x for x in lst if x[3] == "definition"]
+            dtr = {x[0] for x in defs}
+            for x in lst:
+                if x[3] == "reference" and dtr and x[0] not in dtr:
+                    fl, _, fq = x[1].partition("::")
+                    rep.violation("R03.11", fl, fq or "-", x[2], "the synthesised type is defined as <%s name>%s but referred to here as <%s name>%s: the two differ for every name on which %s is not the identity (CamelCase like LevelControl -> Levelcontrol, snake_case), so the generated header names a type that does not exist and does not compile" % ("/".join(sorted(dtr)), suf, x[0], suf, "to_pascal_case" if "to_pascal_case" in (x[0], *dtr) else x[0]))
+            if not dtr:
+                rep.undecided("R03.11", lst[0][1].split("::")[0], "-", "<name>%s" % suf, "derivations differ (%s) but no definition site was recognised" % desc)
+    rep.ok("R03.11", "-", "-", "synthesised type-name families (by suffix)", "%d compared" % n)
